@@ -53,6 +53,7 @@ type RunOpts struct {
 	SampleEvery int // keep a model for every k-th completed path (0 = none)
 	MaxViol     int // stop collecting after this many violations (0 = unlimited)
 	AllowPanic  bool
+	Preempt     int // schedule exploration: max pre-emptions per path (context bound); <0 = unbounded
 }
 
 // RunResult aggregates an exploration.
@@ -229,6 +230,7 @@ func (w *Worker) runPath(fn *ssa.Function, prefix []Dec, fixed map[string]uint64
 	ex.lits = map[int]bool{}
 	ex.exploreSched = o.Sched
 	ex.allowPanic = o.AllowPanic
+	ex.preemptBound = o.Preempt
 	ex.runThreads(func() {
 		if initFn := w.pkg.Func("init"); initFn != nil {
 			ex.call(Closure{fn: initFn}, nil, nil)
